@@ -10,6 +10,14 @@ CHECKS = {
          "Generated-input search: thousands of random typed pipeline graphs x interleaved inputs per run, global emission log compared with an independent reference model of the docstrings. Exploration only: says 'held on everything generated'.",
          "Trusted: the reference model (harness/model.py, written from docstrings), the closed function catalogue; parameters outside the documented ones are not generated.",
          "DESIGN.md section 4 C01"),
+ "C02": ("Hypothesis-generated pipelines + event-loop schedules on a harness-owned virtual loop; local per-node oracles (observed output = documented function of observed input)",
+         "Generated-schedule search: the harness owns the event loop and the clock, so completion orders and timer coincidences are generated values; thousands of (pipeline, schedule) pairs per run; every node's observed output is compared with the documented function of its observed input. Exploration only.",
+         "Trusted: harness/vloop.py (virtual loop), harness/local.py (local oracles), interleavings at event-loop granularity only.",
+         "DESIGN.md section 4 C02"),
+ "C03": ("Hypothesis-generated pipelines + schedules; history invariants over the event log (no early completion, bounds at every log position, no deadlock after a finish phase) + threaded blocking-emit order check",
+         "Generated-schedule search with three history invariants checked on the complete event log of each run; deadlock verdicts are sound because the harness owns the loop (pending with nothing left to run). Threaded mode is sampled, not controlled. Exploration only.",
+         "Trusted: virtual loop; 'accepted' = emit awaitable completed; pending emits are excused only where a zip input is observed over-full (starved sibling).",
+         "DESIGN.md section 4 C03"),
 }
 NOT_YET = "check not built yet in this session (the property is decidable with this technique; see DESIGN.md section 4)"
 
